@@ -394,3 +394,16 @@ contract("specs.ldapmsg:thm_rt_search_request_fixed",
          ensures=["content_of(%s) == base_b" % _R(0), "content_of(%s) == c_scope" % _R(1), "content_of(%s) == c_deref" % _R(2),
                   "content_of(%s) == c_size" % _R(3), "content_of(%s) == c_time" % _R(4),
                   "len(content_of(%s)) == 1" % _R(5), "(content_of(%s)[0] != 0) == types_only" % _R(5), "%s == tail" % _R(6)])
+_CT = "cat(e, tail)"
+_CV1 = "rest_of(content_of(%s))" % _CT
+_HU = lambda s, num: "(len(%s) > 0 and id_class(%s) == 0 and id_number(%s) == %d)" % (s, s, s, num)
+contract("specs.ldapmsg:thm_rt_control",
+         requires=["tlv_of(e, 0, True, 16, cat(e_type, ite(critical, e_crit, empty()), ite(has_val, e_val, empty())))", "tlv_of(e_type, 0, False, 4, type_b)",
+                   "implies(critical, tlv_of(e_crit, 0, False, 1, seq1(255)))", "implies(has_val, tlv_of(e_val, 0, False, 4, val))"],
+         ensures=["rest_of(%s) == tail" % _CT, "content_of(content_of(%s)) == type_b" % _CT,
+                  "%s == critical" % _HU(_CV1, 1),
+                  "implies(critical, len(content_of(%s)) == 1 and content_of(%s)[0] != 0)" % (_CV1, _CV1),
+                  "implies(not critical, %s == has_val)" % _HU(_CV1, 4),
+                  "implies(not critical and has_val, content_of(%s) == val)" % _CV1,
+                  "implies(critical, %s == has_val)" % _HU("rest_of(%s)" % _CV1, 4),
+                  "implies(critical and has_val, content_of(rest_of(%s)) == val)" % _CV1])
